@@ -6,6 +6,7 @@ All statements hold for every input, every schedule (`nbrs`, `coinc`) and every 
 -/
 import CBV.Model.C01
 import CBV.Lemmas.C01Own
+import CBV.Lemmas.C01Sched
 
 namespace CBV.Prop
 
@@ -153,6 +154,42 @@ theorem T_C01_conflict_chops (inp : Inp) (x y : Nat) (hx : x < 3 * inp.nBlocks) 
   rw [← T_C01_family_count inp st h x hx hux (4 * y) hf,
     ← T_C01_family_count inp st h y hy huy (4 * y) (.refl _ (by omega))]
 
+/-! ### the schedule is a function of the vertex indexes -/
+
+/-- the schedule the code builds from the vertex indexes is complete and valid: `run` never answers `badSchedule` on it -/
+theorem T_C01_built_schedule_ok (inp : Inp) :
+    (coincComplete (withBuiltSchedule inp) && nbrsValid (withBuiltSchedule inp)) = true := by
+  rw [Bool.and_eq_true]
+  constructor
+  · unfold coincComplete
+    simp only [List.all_eq_true, List.mem_range]
+    intro w hw w' hw'
+    have hs : samePair (withBuiltSchedule inp) w w' = samePair inp w w' := rfl
+    have hc : (withBuiltSchedule inp).coinc w = builtCoinc inp w := rfl
+    have hn : (withBuiltSchedule inp).nBlocks = inp.nBlocks := rfl
+    rw [hs, hc]
+    rw [hn] at hw'
+    by_cases hcond : (w / 12 != w' / 12 && samePair inp w w') = true
+    · simp only [hcond, if_true, List.contains_iff_mem]
+      rw [mem_builtCoinc]
+      simp only [Bool.and_eq_true, bne_iff_ne] at hcond
+      exact ⟨by omega, fun e => hcond.1 e.symm, hcond.2⟩
+    · simp only [hcond, if_false, Bool.false_eq_true, Bool.not_eq_true', ← Bool.not_eq_true, List.contains_iff_mem]
+      rw [mem_builtCoinc]
+      rintro ⟨_, h2, h3⟩
+      apply hcond
+      simp only [Bool.and_eq_true, bne_iff_ne]
+      exact ⟨fun e => h2 e.symm, h3⟩
+  · unfold nbrsValid
+    simp only [List.all_eq_true, List.mem_range, Bool.and_eq_true, decide_eq_true_eq]
+    intro x _ nb hnb
+    have hb : (withBuiltSchedule inp).nbrs x = builtNbrs inp x := rfl
+    have ha : axisAligned (withBuiltSchedule inp) nb x = axisAligned inp nb x := rfl
+    have hn : (withBuiltSchedule inp).nBlocks = inp.nBlocks := rfl
+    rw [hb, mem_builtNbrs] at hnb
+    rw [ha, hn]
+    exact ⟨by omega, hnb.2.2⟩
+
 end CBV.Prop
 
 /-! ### non-vacuity: concrete inputs on which `run` succeeds / fails as the theorems' hypotheses need -/
@@ -191,5 +228,9 @@ example : userChopped (twoBoxes 5 7) 1 = true ∧ userChopped (twoBoxes 5 7) 4 =
 /-- the shared wires 5 (block 0) and 16 (block 1) are in one family -/
 example : Fam (twoBoxes 5 0) 5 16 :=
   .shared (.refl 5 (by decide)) (by decide) (by decide) (by decide +kernel)
+
+/-- the hand-written schedule of the two boxes is the one the model builds from their vertex indexes -/
+example : (List.range 6).map (builtNbrs (twoBoxes 5 0)) = (List.range 6).map (twoBoxes 5 0).nbrs ∧
+    (List.range 24).map (builtCoinc (twoBoxes 5 0)) = (List.range 24).map (twoBoxes 5 0).coinc := by decide +kernel
 
 end CBV.Prop.Examples
